@@ -184,9 +184,10 @@ def genotype(
             gene.do_copy_number = False
             # (no copy-number profile is needed; the profile's own parameters still apply)
             options = Profile.load_options(profile_name) if profile_name else {}
-            profile = Profile(
-                "user_provided", cn_solution=cn_solution, **dict(options, **params)
-            )
+            options = dict(options, **params)
+            for n in ("name", "cn_region", "data", "cn_solution"):
+                options.pop(n, None)  # (not parameters: ignored as unknown)
+            profile = Profile("user_provided", cn_solution=cn_solution, **options)
             sample = sam.Sample(gene, profile, sam_path, debug=debug)
         else:
             if cn_solution:
@@ -194,10 +195,11 @@ def genotype(
                 options = {}
                 if profile_name and kind != "dump":
                     options = Profile.load_options(profile_name)
+                options = dict(options, **params)
+                for n in ("name", "cn_region", "data", "cn_solution"):
+                    options.pop(n, None)  # (not parameters: ignored as unknown)
                 profile = Profile(
-                    "user_provided",
-                    cn_solution=cn_solution,
-                    **dict(options, **params),
+                    "user_provided", cn_solution=cn_solution, **options
                 )
             elif kind != "dump":
                 if not profile_name:
